@@ -2066,3 +2066,318 @@ Proof.
   intros Cfg WD WF WL Hdoc H. apply (C01_upd_track_law st start newT newL b st1 Cfg WD WF); [now apply lin_down_of_W_lin| |exact H].
   now apply upd_track_pre_doc.
 Qed.
+
+(* ================================================================== *)
+(* 11. the edge and relabelling actions only depend on the graph pointwise *)
+(* ================================================================== *)
+Definition res_pw {A} (r r' : res A) : Prop :=
+  match r, r' with
+  | Ok a s, Ok a' s' => a = a' /\ pw_eq s s'
+  | Err e s, Err e' s' => e = e' /\ pw_eq s s'
+  | _, _ => False
+  end.
+Lemma res_pw_ok {A} (r r' : res A) a s : res_pw r r' -> r = Ok a s -> exists s', r' = Ok a s' /\ pw_eq s s'.
+Proof. intros H ->. destruct r' as [a' s'|e' s']; cbn in H; [|contradiction]. destruct H as [<- H]. now exists s'. Qed.
+
+Section PwReaders.
+  Variables s s' : state.
+  Hypothesis H : pw_eq s s'.
+  Let Ei : node_ids s' = node_ids s. Proof. apply H. Qed.
+  Let Es : succs (g s') = succs (g s). Proof. apply H. Qed.
+  Let Ea : forall m k, attr s' m k = attr s m k. Proof. apply H. Qed.
+  Let Eg : seg s' = seg s. Proof. apply H. Qed.
+  Let Ef : ft s' = ft s. Proof. apply H. Qed.
+
+  Lemma pw_is_node n : is_node s' n <-> is_node s n.
+  Proof. unfold is_node. now rewrite Ei. Qed.
+  Lemma pw_has_node n : has_node s' n = has_node s n.
+  Proof.
+    destruct (has_node s n) eqn:E.
+    - apply has_node_is_node. apply pw_is_node. now apply has_node_is_node.
+    - apply has_node_false. rewrite pw_is_node. now apply has_node_false.
+  Qed.
+  Lemma pw_zattr n k : zattr s' n k = zattr s n k.
+  Proof. unfold zattr. now rewrite Ea. Qed.
+  Lemma pw_time_of n : time_of s' n = time_of s n.
+  Proof. unfold time_of. now rewrite pw_zattr. Qed.
+  Lemma pw_adj u : adj s' u = adj s u.
+  Proof. unfold adj. now rewrite Es. Qed.
+  Lemma pw_successors u : successors s' u = successors s u.
+  Proof. unfold successors. now rewrite pw_adj. Qed.
+  Lemma pw_has_edge u v : has_edge s' u v = has_edge s u v.
+  Proof. unfold has_edge. now rewrite pw_adj. Qed.
+  Lemma pw_edge_attrs u v : edge_attrs s' u v = edge_attrs s u v.
+  Proof. unfold edge_attrs. now rewrite pw_adj. Qed.
+  Lemma pw_iou_of sg u v : iou_of s' sg u v = iou_of s sg u v.
+  Proof. unfold iou_of. now rewrite !pw_time_of. Qed.
+  Lemma pw_nodes_len : length (nodes (g s')) = length (nodes (g s)).
+  Proof. pose proof Ei as E. unfold node_ids, keys in E. apply (f_equal (@length Z)) in E. now rewrite !map_length in E. Qed.
+
+  Lemma sna_pw n k v : pw_eq (set_node_attr s n k v) (set_node_attr s' n k v).
+  Proof.
+    destruct (in_dec Z.eq_dec n (node_ids s)) as [Hn|Hn].
+    - assert (Hn' : is_node s' n) by (now apply pw_is_node).
+      unfold pw_eq. rewrite !sna_node_ids, !sna_succs, !sna_seg, !sna_ft. repeat split; auto.
+      intros m j. destruct (Z.eq_dec m n) as [->|Hm]; [destruct (Z.eq_dec j k) as [->|Hj]|].
+      + now rewrite !sna_attr_same.
+      + rewrite !sna_attr_other by (now right). apply Ea.
+      + rewrite !sna_attr_other by (now left). apply Ea.
+    - rewrite (sna_notnode s n k v Hn). rewrite (sna_notnode s' n k v); [exact H|]. now rewrite pw_is_node.
+  Qed.
+
+  Lemma sea_pw u v k x : pw_eq (set_edge_attr s u v k x) (set_edge_attr s' u v k x).
+  Proof.
+    unfold set_edge_attr. rewrite pw_has_edge. destruct (has_edge s u v); [|exact H].
+    unfold pw_eq, node_ids, attr, node_attrs. cbn [g nodes succs seg ft upd_g]. rewrite pw_edge_attrs, pw_adj, Es.
+    repeat split; auto. all: intros m j; apply Ea.
+  Qed.
+End PwReaders.
+
+Lemma pw_eq_upd_bk s b : pw_eq s (upd_bk s b).
+Proof. unfold pw_eq. auto. Qed.
+
+Lemma iou_update_edges_pw s s' es : pw_eq s s' -> pw_eq (iou_update_edges s es) (iou_update_edges s' es).
+Proof.
+  intros H. unfold iou_update_edges. pose proof H as (_ & _ & _ & Eg & Ef). rewrite Eg, Ef.
+  destruct (seg s) as [sg|]; [|exact H]. destruct (iou_act (ft s)); [|exact H].
+  apply fold_rel; [|exact H]. intros x x' e Hx. rewrite (pw_iou_of _ _ Hx). now apply sea_pw.
+Qed.
+
+Lemma do_add_edge_pw s s' u v a : pw_eq s s' -> res_pw (do_add_edge s u v a) (do_add_edge s' u v a).
+Proof.
+  intros H. unfold do_add_edge. rewrite !(pw_has_node _ _ H).
+  destruct (negb (has_node s u)); [cbn; auto|]. destruct (negb (has_node s v)); [cbn; auto|].
+  cbn. split; [reflexivity|]. apply iou_update_edges_pw. pose proof H as (Ei & Es & Ea & Eg & Ef).
+  unfold pw_eq, node_ids, attr, node_attrs. cbn [g nodes succs seg ft upd_g]. rewrite (pw_edge_attrs _ _ H), (pw_adj _ _ H), Es.
+  repeat split; auto. all: intros m k; apply Ea.
+Qed.
+
+Lemma do_del_edge_pw s s' u v : pw_eq s s' -> res_pw (do_del_edge s u v) (do_del_edge s' u v).
+Proof.
+  intros H. unfold do_del_edge. rewrite (pw_has_edge _ _ H).
+  destruct (negb (has_edge s u v)); [cbn; auto|]. pose proof H as (Ei & Es & Ea & Eg & Ef).
+  cbn. rewrite Ef, (pw_edge_attrs _ _ H). split; [reflexivity|].
+  unfold pw_eq, node_ids, attr, node_attrs. cbn [g nodes succs seg ft upd_g]. rewrite (pw_adj _ _ H), Es.
+  repeat split; auto. all: intros m k; apply Ea.
+Qed.
+
+Definition acc_pw (a a' : state * bool * list Z * list Z * list Z) : Prop :=
+  let '(s, f, tn, ln, nx) := a in let '(s', f', tn', ln', nx') := a' in
+  pw_eq s s' /\ f = f' /\ tn = tn' /\ ln = ln' /\ nx = nx'.
+
+Lemma visit_pw oldT newT newL a a' n : acc_pw a a' -> acc_pw (visit oldT newT newL a n) (visit oldT newT newL a' n).
+Proof.
+  destruct a as [[[[s f] tn] ln] nx], a' as [[[[s' f'] tn'] ln'] nx']. intros (H & <- & <- & <- & <-).
+  unfold visit. destruct newL as [l|].
+  - pose proof (sna_pw _ _ H n KLin (VZ l)) as H1. destruct f.
+    + rewrite (pw_zattr _ _ H1). destruct (match zattr _ n KTrack with Some t => t =? oldT | None => false end).
+      * pose proof (sna_pw _ _ H1 n KTrack (VZ newT)) as H2. cbn. rewrite (pw_successors _ _ H2). auto.
+      * cbn. rewrite (pw_successors _ _ H1). auto.
+    + cbn. rewrite (pw_successors _ _ H1). auto.
+  - destruct f.
+    + rewrite (pw_zattr _ _ H). destruct (match zattr _ n KTrack with Some t => t =? oldT | None => false end).
+      * pose proof (sna_pw _ _ H n KTrack (VZ newT)) as H2. cbn. rewrite (pw_successors _ _ H2). auto.
+      * cbn. rewrite (pw_successors _ _ H). auto.
+    + cbn. rewrite (pw_successors _ _ H). auto.
+Qed.
+
+Lemma walk_pw oldT newT newL : forall fuel s s' curr flag tn ln, pw_eq s s' ->
+  match walk fuel oldT newT newL s curr flag tn ln, walk fuel oldT newT newL s' curr flag tn ln with
+  | Some (s1, tn1, ln1), Some (s1', tn1', ln1') => pw_eq s1 s1' /\ tn1 = tn1' /\ ln1 = ln1'
+  | None, None => True
+  | _, _ => False
+  end.
+Proof.
+  induction fuel as [|f IH]; intros s s' curr flag tn ln H.
+  - destruct curr; cbn; auto.
+  - destruct curr as [|c cs]; [cbn; auto|]. cbn [walk].
+    pose proof (fold_rel acc_pw (visit oldT newT newL) (visit_pw oldT newT newL) (c :: cs) (s, flag, tn, ln, []) (s', flag, tn, ln, [])) as Hf.
+    destruct (fold_left (visit oldT newT newL) (c :: cs) (s, flag, tn, ln, [])) as [[[[s1 f1] tn1] ln1] nx1].
+    destruct (fold_left (visit oldT newT newL) (c :: cs) (s', flag, tn, ln, [])) as [[[[s1' f1'] tn1'] ln1'] nx1'].
+    destruct Hf as (H1 & <- & <- & <- & <-); [cbn; auto|]. apply IH. exact H1.
+Qed.
+
+Lemma do_upd_track_pw s s' start newT newL : pw_eq s s' ->
+  res_pw (do_upd_track s start newT newL) (do_upd_track s' start newT newL).
+Proof.
+  intros H. unfold do_upd_track. pose proof H as (Ei & Es & Ea & Eg & Ef).
+  rewrite (pw_has_node _ _ H), !(pw_zattr _ _ H), Ef, (pw_nodes_len _ _ H).
+  destruct (negb (has_node s start)); [cbn; auto|]. destruct (zattr s start KTrack) as [oldT|]; [|cbn; auto].
+  destruct (negb (trk_act (ft s))); [cbn; auto|].
+  pose proof (walk_pw oldT newT (if lin_act (ft s) then newL else None) (S (length (nodes (g s)))) s s' [start] true [] [] H) as W.
+  destruct (walk _ oldT newT _ s [start] true [] []) as [[[s1 tn1] ln1]|], (walk _ oldT newT _ s' [start] true [] []) as [[[s1' tn1'] ln1']|];
+    try contradiction; [|cbn; auto].
+  destruct W as (A & <- & <-).
+  destruct (if lin_act (ft s) then newL else None); cbn; (split; [reflexivity|]);
+    (eapply pw_eq_trans; [apply pw_eq_sym, pw_eq_upd_bk|]; eapply pw_eq_trans; [exact A|apply pw_eq_upd_bk]).
+Qed.
+
+(* ================================================================== *)
+(* 12. track ids below a division                                        *)
+(* ================================================================== *)
+From FT Require Proofs.EditGlobal Proofs.EditBasic.
+From Coq Require Import Relations.
+
+(* every node has a tracklet head above it that carries its track id *)
+Lemma head_above st n : W_dict st -> W_forest st -> W_trk st -> is_node st n ->
+  exists h, head st h /\ EditWalk.reach st h n /\ trk st h = trk st n.
+Proof.
+  intros WD WF WT Hn.
+  destruct (EditGlobal.eroot_exists st WD WF (EditGlobal.nd_edge st) (fun u v H => proj1 H)
+              (fun v => EditGlobal.nd_parent_dec st v WD WF) n Hn) as (r & [Nr Hr] & Ha).
+  exists r. split; [|split].
+  - split; [exact Nr|]. intros p Hp. destruct (le_lt_dec 2 (length (successors st p))) as [Hdiv|Hnd]; [exact Hdiv|].
+    exfalso. apply (Hr p). split; [exact Hp|unfold divides; lia].
+  - clear Hr Nr Hn. induction Ha as [x y Hxy|x|x y z _ IH1 _ IH2]; [apply rt_step; apply Hxy|apply rt_refl|eapply rt_trans; eauto].
+  - apply (EditGlobal.eanc_id (EditGlobal.nd_edge st) (trk st)); [|exact Ha]. intros a b [Hab Hnd]. now apply (wt1 st WT).
+Qed.
+
+Lemma head_below st c x : W_dict st -> W_forest st -> W_trk st -> head st c -> EditWalk.reach st c x ->
+  exists h, head st h /\ EditWalk.reach st c h /\ trk st h = trk st x.
+Proof.
+  intros WD WF WT Hc R. apply clos_rt_rtn1 in R. induction R as [|p y Hpy R IH].
+  - exists c. split; [exact Hc|]. split; [apply rt_refl|reflexivity].
+  - destruct IH as (hp & Hh & Rh & Et). apply clos_rtn1_rt in R.
+    destruct (le_lt_dec 2 (length (successors st p))) as [Hdiv|Hnd].
+    + exists y. split; [|split; [eapply rt_trans; [exact R|now apply rt_step]|reflexivity]].
+      split; [apply (wd_edge_nodes st WD p y Hpy)|]. intros q Hq. now rewrite (wf_in st WF q p y Hq Hpy).
+    + exists hp. split; [exact Hh|]. split; [exact Rh|]. rewrite Et. apply (wt1 st WT p y Hpy). unfold divides. lia.
+Qed.
+
+(* the track id of a dividing node does not occur below it *)
+Lemma trk_below_division st u c x : W_dict st -> W_forest st -> W_trk st ->
+  edge st u c -> divides st u -> EditWalk.reach st c x -> trk st x <> trk st u.
+Proof.
+  intros WD WF WT Huc Hdiv R Eq.
+  destruct (wd_edge_nodes st WD u c Huc) as [Nu Nc].
+  assert (Hc : head st c) by (split; [exact Nc|intros q Hq; now rewrite (wf_in st WF q u c Hq Huc)]).
+  destruct (head_below st c x WD WF WT Hc R) as (hx & Hhx & Rx & Ex).
+  destruct (head_above st u WD WF WT Nu) as (hu & Hhu & Ru & Eu).
+  assert (hx = hu) by (apply (wt2 st WT); [exact Hhx|exact Hhu|congruence]). subst hx.
+  pose proof (wf_time st WF u c Huc) as T1.
+  destruct (EditLin.reach_time st WF hu u Ru) as [E1|T2]; destruct (EditLin.reach_time st WF c hu Rx) as [E2|T3]; subst; lia.
+Qed.
+
+(* ================================================================== *)
+(* 13. UserDeleteEdge / UserAddEdge                                       *)
+(* ================================================================== *)
+Lemma inv_list_2 b1 b2 s : inv_list [ABasic b1; ABasic b2] s =
+  match inv_basic s b2 with
+  | Ok b2' sa => match inv_basic sa b1 with Ok b1' sb => Ok [ABasic b2'; ABasic b1'] sb | Err e sb => Err e sb end
+  | Err e sa => Err e sa
+  end.
+Proof. cbn. destruct (inv_basic s b2) as [b2' sa|e sa]; cbn; [|reflexivity]. destruct (inv_basic sa b1); reflexivity. Qed.
+Lemma inv_list_3 b1 b2 b3 s : inv_list [ABasic b1; ABasic b2; ABasic b3] s =
+  match inv_basic s b3 with
+  | Ok b3' sa => match inv_basic sa b2 with
+                 | Ok b2' sb => match inv_basic sb b1 with Ok b1' sc => Ok [ABasic b3'; ABasic b2'; ABasic b1'] sc | Err e sc => Err e sc end
+                 | Err e sb => Err e sb end
+  | Err e sa => Err e sa
+  end.
+Proof.
+  cbn. destruct (inv_basic s b3) as [b3' sa|e sa]; cbn; [|reflexivity]. destruct (inv_basic sa b2) as [b2' sb|e sb]; cbn; [|reflexivity].
+  destruct (inv_basic sb b1); reflexivity.
+Qed.
+
+(* undoing a recorded UpdateTrackIDs / DeleteEdge / AddEdge from a state that is pointwise equal to the recorded post-state *)
+Lemma upd_track_undo_at st start newT newL b st1 s :
+  cfg_ok st -> W_dict st -> W_forest st -> lin_down st start -> upd_track_pre st start newT ->
+  do_upd_track st start newT newL = Ok b st1 -> pw_eq st1 s ->
+  exists b' s', inv_basic s b = Ok b' s' /\ pw_eq st s'.
+Proof.
+  intros Cfg WD WF Hlin Hpre H P. destruct (upd_track_inverse _ _ _ _ _ _ Cfg WD WF Hlin Hpre H) as (b' & st2 & H2 & P2).
+  destruct (do_upd_track_char _ _ _ _ _ _ Cfg H) as (oldT & _ & _ & _ & _ & _ & -> & _). cbn [inv_basic] in *.
+  destruct (res_pw_ok _ _ _ _ (do_upd_track_pw _ _ start oldT (zattr st start KLin) P) H2) as (s' & E & P').
+  exists b', s'. split; [exact E|]. eapply pw_eq_trans; eauto.
+Qed.
+
+Lemma del_edge_undo_at st u v b st1 s :
+  W_dict st -> iou_fresh_at st u v -> do_del_edge st u v = Ok b st1 -> pw_eq st1 s ->
+  exists b' s', inv_basic s b = Ok b' s' /\ obs_eq st s'.
+Proof.
+  intros WD Hio H P. destruct (del_edge_inverse _ _ _ _ _ WD Hio H) as (b' & st2 & H2 & O2 & _).
+  destruct (del_edge_char _ _ _ _ _ H) as (-> & _). cbn [inv_basic] in *.
+  destruct (res_pw_ok _ _ _ _ (do_add_edge_pw _ _ u v _ P) H2) as (s' & E & P').
+  exists b', s'. split; [exact E|]. eapply obs_eq_trans; [exact O2|now apply pw_eq_obs].
+Qed.
+
+Lemma add_edge_undo_at st u v a b st1 s :
+  W_dict st -> has_edge st u v = false -> do_add_edge st u v a = Ok b st1 -> pw_eq st1 s ->
+  exists b' s', inv_basic s b = Ok b' s' /\ pw_eq st s'.
+Proof.
+  intros WD Hne H P. destruct (add_edge_inverse _ _ _ _ _ _ WD Hne H) as (b' & st2 & H2 & C2 & _).
+  destruct (add_edge_char _ _ _ _ _ _ H) as (-> & _). cbn [inv_basic] in *.
+  destruct (res_pw_ok _ _ _ _ (do_del_edge_pw _ _ u v P) H2) as (s' & E & P').
+  exists b', s'. split; [exact E|]. eapply pw_eq_trans; [apply core_eq_pw; exact C2|exact P'].
+Qed.
+
+Lemma two_in_length (l : list Z) a b : In a l -> In b l -> a <> b -> (2 <= length l)%nat.
+Proof.
+  destruct l as [|x [|y r]]; cbn; [tauto| |lia]. intros [<-|[]] [<-|[]] H. congruence.
+Qed.
+
+Lemma lin_down_sub st s x : W_lin st -> (forall a c, edge s a c -> edge st a c) -> (forall m, lin s m = lin st m) -> lin_down s x.
+Proof.
+  intros WL Hsub Hl m R. rewrite !Hl. apply (lin_down_of_W_lin st x WL). now apply (EditLin.reach_sub st s Hsub).
+Qed.
+
+Theorem C01_user_delete_edge st u v a st' :
+  WF st -> user_delete_edge_core st u v = Ok a st' ->
+  exists b st2, inv_action st' a = Ok b st2 /\ obs_eq st2 st.
+Proof.
+  intros [Cfg WD WFo WT WL WB WS WFr] H. unfold user_delete_edge_core in H.
+  destruct (has_edge st u v) eqn:He; [|discriminate]. cbn [negb] in H.
+  destruct (do_del_edge st u v) as [b1 s1|e1 s1] eqn:H1; [|discriminate]. cbn [bind] in H.
+  destruct (EditBasic.do_del_edge_WS st u v b1 s1 WD WFo H1) as (WD1 & WF1 & E1 & N1 & A1 & (_ & Rft & _)).
+  assert (Cfg1 : cfg_ok s1) by (unfold cfg_ok; now rewrite Rft).
+  pose proof (del_edge_W_book _ _ _ _ _ H1 WB) as WB1.
+  assert (Htrk1 : forall m, trk s1 m = trk st m) by (intros m; unfold trk, zattr; now rewrite A1).
+  assert (Hlin1 : forall m, lin s1 m = lin st m) by (intros m; unfold lin, zattr; now rewrite A1).
+  assert (Hsub1 : forall a c, edge s1 a c -> edge st a c) by (intros a c Hac; now apply E1 in Hac).
+  assert (Hld1 : forall x, lin_down s1 x) by (intros x; now apply (lin_down_sub st s1 x WL Hsub1 Hlin1)).
+  destruct (wd_edge_nodes st WD u v He) as [Nu Nv].
+  assert (Nv1 : is_node s1 v) by (unfold is_node; now rewrite N1).
+  pose proof (W_fresh_iou_at st u v WFr He) as Hio.
+  destruct (out_degree s1 u =? 0) eqn:Eod.
+  - (* plain edge *)
+    destruct (do_upd_track s1 v (next_trk s1) (Some (next_lin s1))) as [b2 s2|e2 s2] eqn:H2; [|discriminate].
+    cbn [bind] in H. injection H as <- <-. rewrite inv_action_group, inv_list_2.
+    assert (Hpre : upd_track_pre s1 v (next_trk s1)).
+    { apply upd_track_pre_doc; [|exact WD1|exact WF1]. intros oldT m _ R Hm. exfalso.
+      apply (next_trk_fresh s1 WB1 m); [|exact Hm]. now apply (EditWalk.reach_is_node s1 v m WD1 Nv1). }
+    destruct (upd_track_inverse s1 v _ _ b2 s2 Cfg1 WD1 WF1 (Hld1 v) Hpre H2) as (b2' & s1' & I2 & P2). rewrite I2.
+    destruct (del_edge_undo_at st u v b1 s1 s1' WD Hio H1 P2) as (b1' & s0 & I1 & O1). rewrite I1. cbn [bind].
+    eexists _, _. split; [reflexivity|now apply obs_eq_sym].
+  - (* division edge *)
+    destruct (out_degree s1 u =? 1) eqn:Eod1; [|discriminate].
+    destruct (successors s1 u) as [|sib rest] eqn:Es; [discriminate|]. destruct (zattr s1 u KTrack) as [t|] eqn:Et; [|discriminate].
+    destruct (do_upd_track s1 sib t None) as [b2 s2|e2 s2] eqn:H2; [|discriminate]. cbn [bind] in H.
+    destruct (zattr s2 v KTrack) as [tv|] eqn:Etv; [|discriminate].
+    destruct (do_upd_track s2 v tv (Some (next_lin s2))) as [b3 s3|e3 s3] eqn:H3; [|discriminate].
+    cbn [bind] in H. injection H as <- <-. rewrite inv_action_group, inv_list_3.
+    (* the sibling *)
+    assert (Hsib1 : edge s1 u sib) by (apply edge_successors; rewrite Es; now left).
+    assert (Hsib : edge st u sib /\ sib <> v).
+    { apply E1 in Hsib1. destruct Hsib1 as [A B]. split; [exact A|]. intros ->. apply B. auto. }
+    assert (Hdiv : divides st u).
+    { unfold divides. apply (two_in_length (successors st u) v sib); [now apply edge_successors|apply edge_successors; apply Hsib|]. intros E. now apply (proj2 Hsib). }
+    assert (Hpre2 : upd_track_pre s1 sib t).
+    { apply upd_track_pre_doc; [|exact WD1|exact WF1]. intros oldT m _ R Hm. exfalso.
+      apply (trk_below_division st u sib m WD WFo WT (proj1 Hsib) Hdiv); [now apply (EditLin.reach_sub st s1 Hsub1)|].
+      rewrite <- !Htrk1. rewrite Hm. symmetry. exact Et. }
+    (* the state after relabelling the sibling *)
+    destruct (upd_track_effect _ _ _ _ _ _ Cfg1 WD1 WF1 H2) as (oldT2 & vis2 & _ & _ & _ & _ & _ & _ & _ & _ & Ei2 & Es2 & _ & Ef2 & _ & _ & KL2).
+    pose proof (upd_track_W_dict _ _ _ _ _ _ Cfg1 WD1 H2) as WD2.
+    assert (WF2 : W_forest s2).
+    { apply (EditWalk.same_struct_W_forest s1 s2); [|exact WF1].
+      pose proof (EditWalk.do_upd_track_struct s1 sib t None _ eq_refl) as S. now rewrite H2 in S. }
+    assert (Cfg2 : cfg_ok s2) by (unfold cfg_ok; now rewrite Ef2).
+    assert (Hsub2 : forall a c, edge s2 a c -> edge st a c) by (intros a c Hac; apply Hsub1; unfold edge, has_edge, adj in *; now rewrite <- Es2).
+    assert (Hlin2 : forall m, lin s2 m = lin st m) by (intros m; rewrite <- Hlin1; unfold lin, zattr; now rewrite KL2).
+    assert (Hpre3 : upd_track_pre s2 v tv).
+    { apply upd_track_pre_doc; [|exact WD2|exact WF2]. intros oldT m Ht _ _. unfold trk in Ht. congruence. }
+    destruct (upd_track_inverse s2 v _ _ b3 s3 Cfg2 WD2 WF2 (lin_down_sub st s2 v WL Hsub2 Hlin2) Hpre3 H3) as (b3' & s2' & I3 & P3). rewrite I3.
+    destruct (upd_track_undo_at s1 sib t None b2 s2 s2' Cfg1 WD1 WF1 (Hld1 sib) Hpre2 H2 P3) as (b2' & s1' & I2 & P2). rewrite I2.
+    destruct (del_edge_undo_at st u v b1 s1 s1' WD Hio H1 P2) as (b1' & s0 & I1 & O1). rewrite I1. cbn [bind].
+    eexists _, _. split; [reflexivity|now apply obs_eq_sym].
+Qed.
